@@ -547,10 +547,11 @@ def _c03(dump_path, fname, tier):
                 wt = witness(fa, case, r, q.model)
                 wt["overrides"] = hint_overrides(r, make_ev(q.model))
                 out["witnesses"].append(wt)
+        skipped = 0
         for i, a in enumerate(oks):
             for b in oks[i:]:
                 if time.time() - t0 > tp["func_budget_s"]:
-                    out["undecided"].append(f"{fname}:case{case.idx}:budget")
+                    skipped += 1
                     continue
                 qn = f"{fname}:case{case.idx}:path{case.results.index(a)}x{case.results.index(b)}"
                 vb = noninput_vars(case, b.path)
@@ -615,9 +616,11 @@ def _c03(dump_path, fname, tier):
                         "view_a": [va_[0], [str(x) for x in va_[1]], str(ga)],
                         "view_b": [vb_[0], [str(x) for x in vb_[1]], str(gb)],
                     })
+        if skipped:
+            out["undecided"].append(
+                f"{fname}:case{case.idx}:budget:{skipped} path pairs not attempted")
     out["secs"] = round(time.time() - t0, 2)
     return out
-
 
 
 c03_worker = wrap(_c03)
